@@ -171,7 +171,8 @@ def gen_case(rng, cid):
             ops.append("reclog")
     ops.extend(o for _, o in late)
     # closing: sometimes drain everything and look at the idle state
-    if rng.random() < 0.6:
+    # (always when a hotspot rule is loaded: a lock left behind by a recovered panic must be met by an op of this case)
+    if hot or rng.random() < 0.6:
         for i in live:
             ops.append(f"exit {i}")
         for r in used + ["__inbound__"]:
